@@ -62,7 +62,7 @@ const sharedRule = "all histories with <=k (1 quick, 2 thorough) inserted/substi
 func init() {
 	Register("C04", &CheckInfo{Fn: func(rc *RunCtx) { runSkeletons(rc, []Monitor{EscrowMonitor{Probe: true}}, kOf(rc)) }, Level: "model_checking",
 		Rule:        sharedRule + "oracle at every block boundary: oracle account == sum of open-query tips, tips escrow >= sum of selector credits, no negative credit, bridge account == 0, dispute account >= escrowed stake + fees of unsettled disputes; branch probe: every entitled claim (WithdrawTip, WithdrawFeeRefund, ClaimReward) in forward and reverse order never fails for lack of funds",
-		QuickBudget: 6 * time.Minute, ThoroughBudget: 15 * time.Minute})
+		QuickBudget: 10 * time.Minute, ThoroughBudget: 15 * time.Minute})
 	Register("C05", &CheckInfo{Fn: func(rc *RunCtx) {
 		mons := []Monitor{PoolMonitor{}}
 		depth := 4
@@ -81,13 +81,13 @@ func init() {
 		runSkeletons(rc, mons, kOf(rc))
 	}, Level: "model_checking",
 		Rule:        sharedRule + "plus an exhaustive DFS depth 4 (quick) / 6 (thorough) in two validator-cap worlds over {validator slashed 1% by evidence (exchange rate != 1), disputes warning/major/minor/from-bond, add-fee from bond, undelegate/redelegate half, bonding-set change, withdraw tip, fee refund, team votes, Block 1s/3d+1ms}; oracle after every accepted operation and block: bonded pool >= tokens of bonded validators, not-bonded pool >= tokens of other validators + unbonding entries, SDK NonNegativePower/PositiveDelegation/DelegatorShares invariants, pool excess (pools minus ledger) never shrinks in a transition and grows by at most one unit per returned entry",
-		QuickBudget: 6 * time.Minute, ThoroughBudget: 15 * time.Minute})
+		QuickBudget: 10 * time.Minute, ThoroughBudget: 15 * time.Minute})
 	Register("C08", &CheckInfo{Fn: func(rc *RunCtx) { runSkeletons(rc, []Monitor{AggMonitor{}}, kOf(rc), skOracle...) }, Level: "model_checking",
 		Rule:        sharedRule + "oracle on every transition: the Aggregates collection changes only by appending a key with a larger timestamp and index+1, or by Flagged false->true; whenever the collection changed, every lookup (current, before, before-by-reporter, by index 0..len+1, by timestamp, timestamp before/after) is compared with the chronological list model at one probe per region of the timestamp axis, and the previous/next timestamps of every new attestation snapshot with the list neighbours; a newly flagged aggregate is named by some dispute's evidence, and when a dispute becomes funded every aggregate its report determined is flagged",
-		QuickBudget: 6 * time.Minute, ThoroughBudget: 15 * time.Minute})
+		QuickBudget: 10 * time.Minute, ThoroughBudget: 15 * time.Minute})
 	Register("C19", &CheckInfo{Fn: func(rc *RunCtx) { runSkeletons(rc, []Monitor{FrameMonitor{}}, kOf(rc)) }, Level: "model_checking",
 		Rule:        sharedRule + "oracle around every accepted tx: privileged messages signed by a non-authority are never accepted; for every account other than the signers (liquid balance, delegated+unbonding stake, reward credit, selected reporter) is not reduced/changed except the three listed exceptions; registered specs change only via MsgUpdateDataSpec",
-		QuickBudget: 6 * time.Minute, ThoroughBudget: 15 * time.Minute})
+		QuickBudget: 10 * time.Minute, ThoroughBudget: 15 * time.Minute})
 }
 
 // focusedDFS runs an exhaustive DFS over a sub-alphabet (selected by label predicate) from the standard set-up.
@@ -175,7 +175,7 @@ func hasAnyPrefix(s string, ps ...string) bool {
 }
 
 func init() {
-	Register("C07", &CheckInfo{Level: "model_checking", QuickBudget: 7 * time.Minute, ThoroughBudget: 15 * time.Minute,
+	Register("C07", &CheckInfo{Level: "model_checking", QuickBudget: 10 * time.Minute, ThoroughBudget: 15 * time.Minute,
 		Rule: "round monitor derived from the statement (accepted report => tip>0 or scheduled-by-rotation or deposit, height <= expiry, not jailed, stake >= minimum recomputed from staking, never a withdrawal query; later report replaces the earlier; at EndBlock exactly the rounds with reports whose window closed produce one aggregate each, leave the store and their tips leave the oracle account; untouched tips stay; the cycle index changes only with no open window and then to (i+1) mod n) evaluated on (a) an exhaustive DFS depth 4 (quick) / 6 (thorough) over {Tip cyc/next/modeq/modeq2/dep/wd, Submit R1/R2 on cyc/next/modeq/dep/wd, gov cyclelist reorder/shrink/grow, gov spec window 0/5, min-stake change, Block 1s} from the standard state with state-hash dedup, and (b) all <=k-deviation histories around the shared skeletons",
 		Fn: func(rc *RunCtx) {
 			mons := []Monitor{RoundMonitor{}}
@@ -189,7 +189,7 @@ func init() {
 			}, []time.Duration{time.Second}, mons, depth, []time.Duration{time.Second, time.Second, time.Second, time.Second})
 			runSkeletons(rc, mons, kOf(rc), skOracle...)
 		}})
-	Register("C10", &CheckInfo{Level: "model_checking", QuickBudget: 7 * time.Minute, ThoroughBudget: 15 * time.Minute,
+	Register("C10", &CheckInfo{Level: "model_checking", QuickBudget: 10 * time.Minute, ThoroughBudget: 15 * time.Minute,
 		Rule: "power monitor: on every accepted report the carried power and the stored per-backer stake snapshot equal an independent recomputation from the staking and selector stores (all delegations of every unlocked selector to bonded validators, in worlds with 3 bonded / 2 of 3 bonded / 2 of 4 bonded validators, the last with a selector holding more delegations than MaxValidators); accepted joins respect the selector cap and the reporter's minimum; no report while jailed, no release before the jail time; no selector backs two different reporters within the unbonding period; evaluated on (a) exhaustive DFS depth 4 (quick) / 6 (thorough) over {Delegate, Delegate 2nd validator, big delegate (bonding change), Undelegate all/half, Redelegate, CreateReporter, Select, Switch x2, RemoveSelector, MaxSelectors=1, dispute (jail), Unjail, Submit R1/R2, Block 1s/21d} in two worlds (MaxValidators 100 and 2, so both stake-counting paths run) and (b) all <=k-deviation histories around the shared skeletons",
 		Fn: func(rc *RunCtx) {
 			mons := []Monitor{PowerMonitor{}}
@@ -215,7 +215,7 @@ func init() {
 			focusedDFS(rc, "power-dfs-4val-maxval2", Config{ValStakes: []int64{5000, 3000, 2900, 2800}, MaxValidators: 2}, false, prep, keep4, gaps[:1], mons, depth, []time.Duration{time.Second})
 			runSkeletons(rc, mons, kOf(rc), skOracle...)
 		}})
-	Register("C09", &CheckInfo{Level: "model_checking", QuickBudget: 7 * time.Minute, ThoroughBudget: 15 * time.Minute,
+	Register("C09", &CheckInfo{Level: "model_checking", QuickBudget: 10 * time.Minute, ThoroughBudget: 15 * time.Minute,
 		Rule: "reward monitor with exact rational arithmetic at every EndBlock: for every tipped aggregate and for the time-based reward over all cycle-list/deposit aggregates of the block, each selector's credit delta equals R * p_r/sum(p) * (commission once to the reporter + (1-rate) * origin/total of the stake snapshot taken at report time) within 1e-18 per term, all deltas >= 0, deltas sum to R, the time-based pool is emptied exactly when such aggregates exist; evaluated on (a) commission/topology worlds (rates 0,0.05,0.5,1 and the accepted out-of-range rates 1.5,100,-0.1; 1-3 selectors x 1-2 validators; tips 1,2,3,7,1e6+1,1e15) (b) an exhaustive DFS depth 4/6 over tips/reports/blocks and (c) all <=k-deviation histories around the shared skeletons",
 		Fn: checkC09})
 }
